@@ -37,6 +37,7 @@ PlainCalls ==
   \cup { [op |-> "new", h |-> "g2"] }                     \* g2 := Graph() / FactorGraph()
 D2 == [cls |-> "range", size |-> 2, vals |-> <<0, 1>>]
 D3 == [cls |-> "range", size |-> 3, vals |-> <<0, 1, 2>>]
+D0 == [cls |-> "range", size |-> 0, vals |-> <<>>]          \* the EMPTY domain binds a node label like any other
 F2 == [doms |-> <<D2>>, shape |-> <<2>>, w |-> <<1, 2>>]
 F3 == [doms |-> <<D3>>, shape |-> <<3>>, w |-> <<1, 2, 3>>]
 F22 == [doms |-> <<D2, D2>>, shape |-> <<2, 2>>, w |-> <<1, 2, 3, 4>>]
@@ -46,7 +47,7 @@ InterpCalls ==
   \cup { [op |-> "copy", h |-> h] : h \in Handles } \cup { [op |-> "new", h |-> "g2"] }
   \cup { [op |-> "from_graph", h |-> h] : h \in Handles }          \* the OTHER handle := FactorGraph.from_graph(h)
   \cup { [op |-> "set_ext", h |-> h, x |-> x] : h \in Handles, x \in {<<>>, <<NA>>, <<NA, NY>>} }
-  \cup { [op |-> "add_domain", h |-> h, nl |-> nl, dom |-> d] : h \in Handles, nl \in {"A", "B"}, d \in {D2, D3} }
+  \cup { [op |-> "add_domain", h |-> h, nl |-> nl, dom |-> d] : h \in Handles, nl \in {"A", "B"}, d \in {D0, D2, D3} }
   \cup { [op |-> "add_factor", h |-> h, el |-> l, fac |-> f] : h \in Handles, l \in {La, La2, Lb}, f \in {F2, F3, F22} }
   \cup { [op |-> "set_weights", h |-> h, name |-> "a", w |-> w] : h \in Handles, w \in {<<7, 8>>, <<7, 8, 9>>} }
 Calls == IF Interp THEN InterpCalls ELSE PlainCalls
